@@ -526,7 +526,7 @@ def run(tier, seed):
                 cls = has_x if any(r[0][0] for r in fr[n:]) else z_eig
                 for form in ("stabilizer", "clifford"):
                     cls.append([n, _rows_json(fr), form])
-    n3 = 1500 if thorough else 400
+    n3 = 1500 if thorough else 800
     S3 = f_stab.all_stabilizer_states(3, full=True)
     for _ in range(n3):
         v, rows, full = S3[int(rng.integers(len(S3)))]
